@@ -379,13 +379,96 @@ shape!(s_vecint2, k_vecint2, ka_vecint2, [a: Vec<u32>, b: Vec<u32>], (Vec<u32>, 
 shape!(s_usize_str, k_usize_str, ka_usize_str, [a: usize, b: &str, c: i16], (usize, String, i16), |t| [t.0, t.1.as_str(), t.2]);
 
 // parameter names a macro implementation might also use for its own temporaries: every
-// argument must still reach the key (macro hygiene)
-shape!(s_names1, k_names1, ka_names1, [key: u32, buf: Vec<u8>, cached: String], (u32, Vec<u8>, String), |t| [t.0, t.1.clone(), t.2.clone()]);
-shape!(s_names2, k_names2, ka_names2, [result: i32, order: String, map: i32], (i32, String, i32), |t| [t.0, t.1.clone(), t.2]);
-shape!(s_names3, k_names3, ka_names3, [entry: String, value: u8, cache: String], (String, u8, String), |t| [t.0.clone(), t.1, t.2.clone()]);
-shape!(s_names4, k_names4, ka_names4, [parts: u16, key_parts: u16, joined: u16, s: u16, k: u16], (u16, u16, u16, u16, u16), |t| [t.0, t.1, t.2, t.3, t.4]);
-shape!(s_names5, k_names5, ka_names5, [stats: String, scope: String, policy: String], (String, String, String), |t| [t.0.clone(), t.1.clone(), t.2.clone()]);
-shape!(s_names6, k_names6, ka_names6, [o: i64, m: i64, v: i64, e: i64], (i64, i64, i64, i64), |t| [t.0, t.1, t.2, t.3]);
+// argument must still reach the key (macro hygiene).  Written out by hand: identifiers that pass
+// through macro_rules carry their own hygiene context and would hide a clash.
+#[cache]
+pub fn k_names1(key: u32, buf: Vec<u8>, cached: String) -> u64 {
+    next_serial()
+}
+#[cache_async]
+pub async fn ka_names1(key: u32, buf: Vec<u8>, cached: String) -> u64 {
+    next_serial()
+}
+fn s_names1() -> Shape<(u32, Vec<u8>, String)> {
+    Shape { name: "s_names1", sync_name: "k_names1", async_name: "ka_names1", sync_call: |t: &(u32, Vec<u8>, String)| k_names1(t.0, t.1.clone(), t.2.clone()), async_call: |t: &(u32, Vec<u8>, String)| vhooks::block_on(ka_names1(t.0, t.1.clone(), t.2.clone())) }
+}
+#[cache]
+pub fn k_names2(result: i32, order: String, map: i32) -> u64 {
+    next_serial()
+}
+#[cache_async]
+pub async fn ka_names2(result: i32, order: String, map: i32) -> u64 {
+    next_serial()
+}
+fn s_names2() -> Shape<(i32, String, i32)> {
+    Shape { name: "s_names2", sync_name: "k_names2", async_name: "ka_names2", sync_call: |t: &(i32, String, i32)| k_names2(t.0, t.1.clone(), t.2), async_call: |t: &(i32, String, i32)| vhooks::block_on(ka_names2(t.0, t.1.clone(), t.2)) }
+}
+#[cache]
+pub fn k_names3(entry: String, value: u8, cache: String) -> u64 {
+    next_serial()
+}
+#[cache_async]
+pub async fn ka_names3(entry: String, value: u8, cache: String) -> u64 {
+    next_serial()
+}
+fn s_names3() -> Shape<(String, u8, String)> {
+    Shape { name: "s_names3", sync_name: "k_names3", async_name: "ka_names3", sync_call: |t: &(String, u8, String)| k_names3(t.0.clone(), t.1, t.2.clone()), async_call: |t: &(String, u8, String)| vhooks::block_on(ka_names3(t.0.clone(), t.1, t.2.clone())) }
+}
+#[cache]
+pub fn k_names4(parts: u16, key_parts: u16, joined: u16, s: u16, k: u16) -> u64 {
+    next_serial()
+}
+#[cache_async]
+pub async fn ka_names4(parts: u16, key_parts: u16, joined: u16, s: u16, k: u16) -> u64 {
+    next_serial()
+}
+fn s_names4() -> Shape<(u16, u16, u16, u16, u16)> {
+    Shape { name: "s_names4", sync_name: "k_names4", async_name: "ka_names4", sync_call: |t: &(u16, u16, u16, u16, u16)| k_names4(t.0, t.1, t.2, t.3, t.4), async_call: |t: &(u16, u16, u16, u16, u16)| vhooks::block_on(ka_names4(t.0, t.1, t.2, t.3, t.4)) }
+}
+#[cache]
+pub fn k_names5(stats: String, scope: String, policy: String) -> u64 {
+    next_serial()
+}
+#[cache_async]
+pub async fn ka_names5(stats: String, scope: String, policy: String) -> u64 {
+    next_serial()
+}
+fn s_names5() -> Shape<(String, String, String)> {
+    Shape { name: "s_names5", sync_name: "k_names5", async_name: "ka_names5", sync_call: |t: &(String, String, String)| k_names5(t.0.clone(), t.1.clone(), t.2.clone()), async_call: |t: &(String, String, String)| vhooks::block_on(ka_names5(t.0.clone(), t.1.clone(), t.2.clone())) }
+}
+#[cache]
+pub fn k_names6(o: i64, m: i64, v: i64, e: i64) -> u64 {
+    next_serial()
+}
+#[cache_async]
+pub async fn ka_names6(o: i64, m: i64, v: i64, e: i64) -> u64 {
+    next_serial()
+}
+fn s_names6() -> Shape<(i64, i64, i64, i64)> {
+    Shape { name: "s_names6", sync_name: "k_names6", async_name: "ka_names6", sync_call: |t: &(i64, i64, i64, i64)| k_names6(t.0, t.1, t.2, t.3), async_call: |t: &(i64, i64, i64, i64)| vhooks::block_on(ka_names6(t.0, t.1, t.2, t.3)) }
+}
+#[cache]
+pub fn k_names7(first: String, rest: String, only: String) -> u64 {
+    next_serial()
+}
+#[cache_async]
+pub async fn ka_names7(first: String, rest: String, only: String) -> u64 {
+    next_serial()
+}
+fn s_names7() -> Shape<(String, String, String)> {
+    Shape { name: "s_names7", sync_name: "k_names7", async_name: "ka_names7", sync_call: |t: &(String, String, String)| k_names7(t.0.clone(), t.1.clone(), t.2.clone()), async_call: |t: &(String, String, String)| vhooks::block_on(ka_names7(t.0.clone(), t.1.clone(), t.2.clone())) }
+}
+#[cache]
+pub fn k_names8(out: u32, acc: u32, tmp: u32, key_str: u32) -> u64 {
+    next_serial()
+}
+#[cache_async]
+pub async fn ka_names8(out: u32, acc: u32, tmp: u32, key_str: u32) -> u64 {
+    next_serial()
+}
+fn s_names8() -> Shape<(u32, u32, u32, u32)> {
+    Shape { name: "s_names8", sync_name: "k_names8", async_name: "ka_names8", sync_call: |t: &(u32, u32, u32, u32)| k_names8(t.0, t.1, t.2, t.3), async_call: |t: &(u32, u32, u32, u32)| vhooks::block_on(ka_names8(t.0, t.1, t.2, t.3)) }
+}
 
 // methods
 impl Recv {
@@ -567,7 +650,7 @@ fn main() {
     let pairs: u64 = std::env::var("VERIF_KEY_PAIRS").ok().and_then(|s| s.parse().ok()).unwrap_or(if tier == "thorough" { 400_000 } else { 6_000 });
     let mut rng = Rng::new(seed.wrapping_mul(0x9E37_79B9) ^ ((shard.0 as u64) << 32));
     macro_rules! go { ($($s:ident),*) => { $( { let sh = $s(); let mut r = rng.fork(hash_str(sh.name)); run_shape(&sh, &mut rep, &mut r, pairs); rep.count("C02", "shapes_x_flavours", 2); } )* } }
-    go!(s_string, s_str, s_i64, s_f64, s_char, s_optstr, s_vecstr, s_tup, s_optopt, s_slice, s_users, s_usere, s_str2, s_ref2, s_int2, s_u64x2, s_strint, s_intstr, s_char2, s_f64x2, s_optstr_str, s_vec2, s_boolstr, s_str3, s_u8x3, s_five, s_m_ref, s_m_noarg, s_m_int2, s_u128, s_i8x3, s_f32x2, s_nested, s_optvec, s_vecopt, s_sos, s_vecint2, s_usize_str, s_m_val, s_m_mut, s_names1, s_names2, s_names3, s_names4, s_names5, s_names6);
+    go!(s_string, s_str, s_i64, s_f64, s_char, s_optstr, s_vecstr, s_tup, s_optopt, s_slice, s_users, s_usere, s_str2, s_ref2, s_int2, s_u64x2, s_strint, s_intstr, s_char2, s_f64x2, s_optstr_str, s_vec2, s_boolstr, s_str3, s_u8x3, s_five, s_m_ref, s_m_noarg, s_m_int2, s_u128, s_i8x3, s_f32x2, s_nested, s_optvec, s_vecopt, s_sos, s_vecint2, s_usize_str, s_m_val, s_m_mut, s_names1, s_names2, s_names3, s_names4, s_names5, s_names6, s_names7, s_names8);
     rep.notes.push(format!("keymon shard {}/{} seed {} tier {} pairs/shape {} wall {:.2}s", shard.0, shard.1, seed, tier, pairs, t0.elapsed().as_secs_f64()));
     rep.write(&out);
 }
